@@ -880,7 +880,7 @@ fn split_random_st() -> BoxedStrategy<SplitCase> {
 }
 
 /// Every split point of one small response per wire format.
-fn sweep(seed: u64) -> Vec<SplitCase> {
+fn sweep(seed: u64, pairs: bool) -> Vec<SplitCase> {
     let mut v = Vec::new();
     for fmt in 0..N_FMT {
         let via_chain = fmt % 2 == 1;
@@ -891,6 +891,16 @@ fn sweep(seed: u64) -> Vec<SplitCase> {
         let len = wire(&doc(docid, 1, &tag).0, &tag, fmt, content_seed).len();
         for p in 1..len {
             v.push(SplitCase { doc: docid, rows: 1, fmt, via_chain, points: vec![Pt { kind: 3, v: p as u16 }], content_seed });
+        }
+        if pairs {
+            // every pair of split points for the raw formats, every close pair (distance <= 3) for the others
+            for p in 1..len {
+                for q in p + 1..len {
+                    if !fmt_is_mime(fmt) || q - p <= 3 {
+                        v.push(SplitCase { doc: docid, rows: 1, fmt, via_chain, points: vec![Pt { kind: 3, v: p as u16 }, Pt { kind: 3, v: q as u16 }], content_seed });
+                    }
+                }
+            }
         }
     }
     v
@@ -960,8 +970,11 @@ fn main() {
     ck.run(
         Section::enumerate(
             "tcp-split-sweep",
-            "every single split point of one small (1-row) answer per wire format (8 formats: V1 MIME CRLF / +base64 signature / +binary signature / cascette-ribbit server format / LF / no checksum, raw text ended by blank line / by close), TCP-only endpoint and fallback chain alternating",
-            move || Box::new(sweep(seed).into_iter()),
+            format!(
+                "every single split point{} of one small (1-row) answer per wire format (8 formats: V1 MIME CRLF / +base64 signature / +binary signature / cascette-ribbit server format / LF / no checksum, raw text ended by blank line / by close), TCP-only endpoint and fallback chain alternating",
+                tier.pick("", " (thorough: plus every pair of split points for the two raw formats and every pair at distance <= 3 for the MIME formats)")
+            ),
+            move || Box::new(sweep(seed, tier == vh_engine::Tier::Thorough).into_iter()),
             check_split,
         )
         .shards(12),
